@@ -18,6 +18,11 @@ import (
 
 var tmpDir string
 
+var (
+	univ        *appdrv.Universe
+	mempoolOnly uint64
+)
+
 // replicate runs the history on two further replicas and compares every marshalled response
 // and the final state projection.
 func replicate(run *vh.Run, h appdrv.History, reps int, key string) bool {
@@ -58,6 +63,16 @@ func replicate(run *vh.Run, h appdrv.History, reps int, key string) bool {
 				}
 				continue
 			}
+			// ... and mempool-only traffic: transactions that never enter a block (lost, or sent by
+			// outsiders), offered to the second replica alone
+			if c.Kind == "begin" && univ != nil && run.RNG.Chance(1, 2) {
+				for n := 0; n < 1+run.RNG.Intn(2); n++ {
+					mempoolOnly++
+					k := run.RNG.Intn(len(univ.Keys))
+					raw := appdrv.SignTx(univ.Keys[k], h.Genesis.ChainID, 900000+mempoolOnly, shmsg.NewBlockSeen(uint64(run.RNG.Intn(9))))
+					appdrv.RawResp(a2, appdrv.Call{Kind: "check", Tx: raw})
+				}
+			}
 			if c.Kind == "begin" && len(later) > 0 && run.RNG.Chance(1, 2) {
 				for n := 0; n < 1+run.RNG.Intn(3); n++ {
 					appdrv.RawResp(a2, appdrv.Call{Kind: "check", Tx: later[run.RNG.Intn(len(later))]})
@@ -88,6 +103,15 @@ func replicate(run *vh.Run, h appdrv.History, reps int, key string) bool {
 		}
 		if ok && appdrv.ProjCoq(a1) != appdrv.ProjCoq(a2) {
 			run.Violate(vh.Violation{Key: key, What: "two replicas hold different state after the same blocks", Case: h})
+			ok = false
+		}
+		// everything the application holds except the node-local parts (its mempool bookkeeping,
+		// where and when it saved), field by field by reflection: an entry that only one replica
+		// has is a difference even when no answer shows it yet
+		local := []string{"CheckTxState", "Gobpath", "LastSaved"}
+		if d1, d2 := appdrv.DeepState(a1, local...), appdrv.DeepState(a2, local...); ok && d1 != d2 {
+			run.Violate(vh.Violation{Key: key + ":deep-state", What: "two replicas hold different state after the same blocks (field-by-field comparison; the answers agreed)", Case: h,
+				Observed: []string{d1, d2}})
 			ok = false
 		}
 	}
@@ -151,6 +175,7 @@ func main() {
 	defer run.Finish()
 	run.Rule = "ABCI histories generated online against the real app (6-key universe, 2-5 genesis keypers, 3 candidate configs, all message types, malformed stream); each history runs once for the model comparison and on two further replica pairs compared bytewise; non-trivial = at least 3 events and 3 accepted transactions; distinct by call list"
 	u := appdrv.NewUniverse(8)
+	univ = u
 	if d, err := os.MkdirTemp("", "verif-c09-"); err == nil {
 		tmpDir = d
 		defer os.RemoveAll(d)
